@@ -26,7 +26,7 @@ TRUSTED = [
     "a job finishing within that window may legally end DONE or CANCELLED",
     "asyncio.wait_for / shield / the thread pool behave as documented; status reads and writes are atomic under the harness lock",
 ]
-ASSUMPTIONS = ["run-functions poll job.status and return soon after seeing CANCELLING", "process/loky backends are not covered by this harness (thread and serial are)"]
+ASSUMPTIONS = ["run-functions poll job.status and return soon after seeing CANCELLING", "backends covered: serial, thread, process (process: fresh interpreter, log shared through a multiprocessing manager); loky is not"]
 RULE = ("timeouts {1,2}s x workers {1,2,4} x backend {serial, thread} x per-job behaviours (short jobs finishing before the deadline, long jobs polling at "
         "different intervals until CANCELLING, jobs that keep working after seeing it); non-trivial = DONE and CANCELLED rows in one run")
 CLAUSE = {1: "illegal_status_sequence_or_stale_poll", 2: "no_terminal_status", 3: "row_count", 4: "row_status", 5: "value_not_kept",
@@ -184,8 +184,27 @@ def run_case(case):
     return njobs, tr, sorted(vals.items()), table, late
 
 
+def run_case_process(case):
+    """process backend: fresh interpreter (vp.props.c14_child), shared log through a multiprocessing manager"""
+    import json
+    import subprocess
+    import sys
+
+    with tempfile.NamedTemporaryFile("w", suffix=".json", prefix="vp_c14_", delete=False) as f:
+        json.dump(case, f)
+        path = f.name
+    try:
+        p = subprocess.run([sys.executable, "-m", "vp.props.c14_child", path], stdout=subprocess.PIPE, stderr=subprocess.PIPE, text=True, timeout=80)
+    finally:
+        os.unlink(path)
+    if "@@RESULT@@" not in p.stdout:
+        raise RuntimeError("process-backend child failed: " + p.stderr[-1500:])
+    o = json.loads(p.stdout.split("@@RESULT@@")[1].strip())
+    return o["njobs"], o["trace"], [tuple(v) for v in o["vals"]], o["table"], o["late"]
+
+
 def check(case):
-    njobs, tr, vals, table, late = run_case(case)
+    njobs, tr, vals, table, late = run_case_process(case) if case["backend"] == "process" else run_case(case)
     ok, j, clause = model().call(F_CHECK, [njobs, tr, [list(v) for v in vals], table, -1, late])
     statuses = sorted(set(r[1] for r in table))
     res = dict(ok=True, kind="oracle", clause="", nontrivial=(2 in statuses and 4 in statuses),
@@ -216,7 +235,7 @@ def gen(count, backends):
                 plan[-1] = ["long", 0, 0.1, 0]
             W = rng.choice([1, 2, 4])
             mode = ["search", "evaluator", "search_strict", "search", "evaluator", "search_max"][i % 6]
-            c = dict(timeout=T, workers=W, backend=backends[(i // 2) % len(backends)], plan=plan, mode=mode)
+            c = dict(timeout=T, workers=W, backend=backends[i % len(backends)], plan=plan, mode=mode)
             if mode == "evaluator":
                 c["timeout"] = 2  # a job queued at the deadline with a stale budget would run 2 s more: visible beyond the slack
                 c["njobs"] = W + rng.randint(1, 2 * W + 1)
@@ -231,4 +250,5 @@ def gen(count, backends):
 
 def streams(tier):
     th = tier == "thorough"
-    return [Stream("timeout_searches", gen(72 if th else 18, ["serial", "thread"]), check, None, timeout=90)]
+    # 7 backends entries x 6 modes: every (backend, mode) pair occurs (7 and 6 are coprime)
+    return [Stream("timeout_searches", gen(84 if th else 21, ["serial", "thread", "process", "serial", "thread", "serial", "thread"]), check, None, timeout=120)]
